@@ -313,7 +313,7 @@ pub fn arg_pool() -> Vec<&'static str> {
         "", "a", "/", "//", "\\", "?", "#", "@", ":", "%", "%41", "%2e", "..", ".", "/..", "/a/b", "//x", "/c:", "c:", "C|", "x y", " ",
         "\t", "\n", "a\tb", " x ", "\u{e9}", "\u{5d0}", "\u{1f600}", "\"", "<", ">", "`", "{", "}", "'", "^", "|", "[", "]", "[::1]",
         "[::1]:80", "1.2.3.4", "0x7f.1", "localhost", "h", "h:80", "h:", ":80", "h:x", "H.COM", "ex%41mple.com", "xn--4db", "a@b", "u:p",
-        "http", "https", "file", "ws", "a", "non-spec", "http:", "file:x", "1x", "ht tp", "80", "443", "0", "65535", "65536", "8x", "8\t0",
+        "http", "https", "file", "ws", "a", "non-spec", "http:", "file:x", "1x", "ht tp", "80", "443", "0", "65535", "65536", "8x", "8\t0", "9", "10", "99", "100", "999", "1000", "9999", "10000", "h:10000",
         "?q", "#f", "a=b&c=d", "\u{0}", "\u{7f}", "\u{80}", "a/../b", "a/./b", "/.//x", "a b ", "%00", "&", "=", "+", ";", "~",
         // a '/' behind tab / LF (class of the repaired finding F-C06-6)
         "\t/x", "\n//x", "\t/ y",
@@ -434,7 +434,7 @@ pub fn all_single_ops() -> Vec<Op> {
     v.push(Op::SetQuery(None));
     v.push(Op::SetHost(None));
     v.push(Op::SetPassword(None));
-    for p in [None, Some(0u16), Some(21), Some(80), Some(443), Some(8080), Some(65535)] {
+    for p in [None, Some(0u16), Some(9), Some(10), Some(21), Some(80), Some(99), Some(100), Some(443), Some(999), Some(1000), Some(8080), Some(9999), Some(10000), Some(10001), Some(65535)] {
         v.push(Op::SetPort(p));
     }
     v.push(Op::SetIpHost(IpAddr::V4(Ipv4Addr::new(127, 0, 0, 1))));
@@ -468,6 +468,8 @@ pub fn start_pool() -> Vec<Url> {
         "file:///c:/",
         "a:b c ",
         "http://%41lice:%42%20c@h/p",
+        "http://h:10000/p?q#f",
+        "ws://h:9/",
         "a:b  #f",
         "a:b  ?q#f",
         "data:text/plain,two words   #old",
